@@ -644,7 +644,8 @@ def gen_patch_variants() -> List[Variant]:
             if ov is None:
                 out.append(Variant(prop, vid, "stale", {}, f"stored patch {name} no longer applies"))
             else:
-                out.append(Variant(prop, vid, "mutant", ov, f"seeded breaking change {name} ({meta.get('property')})"))
+                miss = "caught_by" in meta and not meta.get("caught_by")
+                out.append(Variant(prop, vid, "mutant", ov, ("recorded miss: " if miss else "") + f"seeded breaking change {name} ({meta.get('property')})"))
     all_props = [f"C{i:02d}" for i in range(1, 21)]
     for pf in sorted(glob.glob(os.path.join(root, "benign*", "*", "patch*.diff"))):
         rnd = os.path.basename(os.path.dirname(os.path.dirname(pf)))
